@@ -4,6 +4,7 @@ package h
 
 import (
 	"fmt"
+	"regexp"
 	"strings"
 	"time"
 
@@ -28,12 +29,12 @@ func (s *c15Spec) String() string {
 	return fmt.Sprintf("%s(%d)", s.K, s.A)
 }
 
-var c15Regexps = []string{`[a-c]{1,3}`, `\d+x?`, `(ab|cd){0,2}`, `[[:alpha:]]\w`}
+var c15Regexps = []string{`[a-c]{1,3}`, `\d+x?`, `(ab|cd){0,2}`, `[[:alpha:]]\w`, regexCatalogue[5], regexCatalogue[6]}
 
 func genC15Spec(t *Tape, depth int) *c15Spec {
-	w := []int{4, 3, 3, 3, 4, 4, 3, 3, 2, 2}
+	w := []int{4, 3, 3, 3, 4, 4, 3, 3, 2, 2, 3, 2, 2, 2, 2, 2, 2, 2}
 	if depth >= 3 {
-		w = []int{4, 0, 0, 0, 0, 0, 3, 3, 2, 0}
+		w = []int{4, 0, 0, 0, 0, 0, 3, 3, 2, 0, 0, 2, 2, 0, 2, 2, 0, 2}
 	}
 	switch t.Weighted("c15.kind", w...) {
 	case 0:
@@ -54,9 +55,32 @@ func genC15Spec(t *Tape, depth int) *c15Spec {
 		return &c15Spec{K: "string"}
 	case 8:
 		return &c15Spec{K: "sampled", A: t.Int("c15.a", 1, 5)}
-	default:
+	case 9:
 		return &c15Spec{K: "sliceof", Sub: genC15Spec(t, depth+1)}
+	case 10:
+		return &c15Spec{K: []string{"mapof", "mapofn", "mapofvalues"}[t.Pick("c15.mapkind", 3)], A: t.Int("c15.a", 1, 6), Sub: genC15Spec(t, depth+1)}
+	case 11:
+		return &c15Spec{K: "distinct", A: t.Int("c15.a", 1, 6)}
+	case 12:
+		return &c15Spec{K: "perm", A: t.Int("c15.a", 0, 5)}
+	case 13:
+		return &c15Spec{K: "ptr", Sub: genC15Spec(t, depth+1)}
+	case 14:
+		return &c15Spec{K: "float"}
+	case 15:
+		return &c15Spec{K: []string{"stringof", "stringn", "bytesmatching"}[t.Pick("c15.strkind", 3)], A: t.Int("c15.a", 0, 8)}
+	case 16:
+		return &c15Spec{K: "matching2"}
+	default:
+		return &c15Spec{K: "make"}
 	}
+}
+
+type c15Made struct {
+	A int
+	B string
+	C []bool
+	D map[uint8]int16
 }
 
 // build creates a fresh generator expression (new objects every time) from the spec.
@@ -90,10 +114,43 @@ func (s *c15Spec) build() *rapid.Generator[any] {
 			sl[i] = i * 7
 		}
 		return rapid.SampledFrom(sl)
+	case "mapof":
+		return rapid.MapOf(rapid.IntRange(0, s.A), s.Sub.build()).AsAny()
+	case "mapofn":
+		return rapid.MapOfN(rapid.IntRange(0, s.A+2), s.Sub.build(), 1, 3).AsAny()
+	case "mapofvalues":
+		return rapid.MapOfValues(s.Sub.build(), func(v any) string { return fmt.Sprint(v) }).AsAny()
+	case "distinct":
+		return rapid.SliceOfDistinct(rapid.IntRange(0, s.A), rapid.ID[int]).AsAny()
+	case "perm":
+		sl := make([]int, s.A)
+		for i := range sl {
+			sl[i] = i
+		}
+		return rapid.Permutation(sl).AsAny()
+	case "ptr":
+		return rapid.Ptr(s.Sub.build(), true).AsAny()
+	case "float":
+		return rapid.Float64Range(-100, 100).AsAny()
+	case "stringof":
+		return rapid.StringOf(rapid.RuneFrom([]rune{'a', 'b', 'é', '世'})).AsAny()
+	case "stringn":
+		return rapid.StringN(-1, -1, s.A).AsAny()
+	case "bytesmatching":
+		return rapid.SliceOfBytesMatching(`[a-f]{0,4}`).AsAny()
+	case "matching2":
+		return rapid.OneOf(rapid.StringMatching(regexCatalogue[5]), rapid.StringMatching(regexCatalogue[6])).AsAny()
+	case "make":
+		return rapid.Make[c15Made]().AsAny()
 	default:
 		return rapid.SliceOfN(s.Sub.build(), 0, 3).AsAny()
 	}
 }
+
+var reAddr = regexp.MustCompile(`0xc[0-9a-f]{6,}`)
+
+// show formats a drawn value; heap addresses are not part of the value.
+func show(v any) string { return reAddr.ReplaceAllString(fmt.Sprintf("%#v", v), "PTR") }
 
 type c15Use struct {
 	Kind int // 0 passing Check, 1 Example, 2 String, 3 sub-generator Example, 4 failing Check (minimizes)
@@ -123,10 +180,10 @@ func (u c15Use) perform(g *rapid.Generator[any], id int, scheduled bool) (log st
 			rapid.Check(tb, func(t *rapid.T) {
 				yield()
 				v := g.Draw(t, "v")
-				fmt.Fprintf(&b, "%#v;", v)
+				fmt.Fprintf(&b, "%s;", show(v))
 				yield()
 				w := g.Draw(t, "w")
-				fmt.Fprintf(&b, "%#v|", w)
+				fmt.Fprintf(&b, "%s|", show(w))
 				if u.Kind == 4 && len(fmt.Sprint(v, w)) > 4 {
 					t.Fatalf("too long")
 				}
@@ -135,13 +192,13 @@ func (u c15Use) perform(g *rapid.Generator[any], id int, scheduled bool) (log st
 		fmt.Fprintf(&b, "=>%s", tb.verdict())
 	case 1:
 		yield()
-		fmt.Fprintf(&b, "%#v", g.Example(u.Seed))
+		b.WriteString(show(g.Example(u.Seed)))
 	case 2:
 		yield()
 		b.WriteString(g.String())
 	case 3:
 		yield()
-		fmt.Fprintf(&b, "%#v", rapid.SliceOfN(g, 1, 3).Example(u.Seed))
+		b.WriteString(show(rapid.SliceOfN(g, 1, 3).Example(u.Seed)))
 	}
 	return b.String(), escaped
 }
